@@ -22,6 +22,7 @@ SHRINK = {"quick": False, "thorough": True}
 ASSUMPTIONS = ["use_cpp=False (C17 covers the compiled backend)", "torch.manual_seed(lib_seed) pins the internal randomness",
                "C = 5 (calibrated worst 0.47 on direct/GMRES paths)"]
 C_EPS = 5.0
+CASE_TIMEOUT = {"quick": 90, "thorough": 240}      # a single solve takes well under a second; see run.py (watchdog)
 
 
 @st.composite
@@ -50,8 +51,13 @@ def strategy_case(draw):
     # the residual clause is relative: scaling the right-hand side or the operator by 10^k must not matter
     case["scale_b"] = draw(st.sampled_from([0, 0, 0, 0, -6, -3, 3, 6]))
     case["scale_A"] = draw(st.sampled_from([0, 0, 0, 0, -6, -3, 3, 6]))
+    # special right-hand sides: the zero tensor, or a unit tensor e_(0,..,0) together with the initial guess e_(0,..,0,1)
+    # (the guess is orthogonal to b, so the interfaces <b, x0> vanish exactly)
+    # or b = A @ ones, which the solver's default start tensor (all ones) already solves exactly
+    case["b_kind"] = draw(st.sampled_from(["random"] * 16 + ["zero", "unit_pair", "A_ones"]))
     if draw(st.floats(0, 1)) < 0.3:
         case["x0_R"] = draw(gen.ranks(d, 4))
+        case["x0_scale"] = draw(st.sampled_from([0, 0, 0, 8, -8]))      # an initial guess far from / far below the solution
         # the zero tensor is the classical start vector of an iterative solver: the whole tensor, or one zero core
         case["x0_zero"] = draw(st.sampled_from([None, None, None, None, "zeros", "zero_core"]))
     elif draw(st.floats(0, 1)) < 0.15:
@@ -134,6 +140,17 @@ def build_system(case):
         I = [torch.eye(n, dtype=torch.float64).reshape(1, n, n, 1) for n in N]
         A = stack_sum([I, E])
     b = core.make_cores({"N": N, "R": case["Rb"], "dt": "f64", "mode": "gauss", "seed": case["seed"] + 5})
+    if case.get("b_kind") == "zero":
+        kz = case["seed"] % d
+        b[kz] = torch.zeros_like(b[kz])
+    elif case.get("b_kind") == "A_ones":
+        b = [c.sum(dim=2) for c in A]
+    elif case.get("b_kind") == "unit_pair":
+        b = []
+        for n in N:
+            c = torch.zeros(1, n, 1, dtype=torch.float64)
+            c[0, 0, 0] = 1.0
+            b.append(c)
     return A, b
 
 
@@ -167,9 +184,22 @@ def execute(case):
         if case.get("x0_zero") == "zero_core":
             kz = case["seed"] % len(N)
             x0c[kz] = torch.zeros_like(x0c[kz])
+        if case.get("x0_scale", 0):
+            ks = (case["seed"] // 7) % len(N)
+            x0c[ks] = x0c[ks] * (10.0 ** case["x0_scale"])
+            ck.label("x0_far")
         x0 = T.TT(x0c) if case.get("x0_zero") != "zeros" else T.zeros(list(N))
         if case.get("x0_zero"):
             ck.label("x0_zero")
+    if case.get("b_kind", "random") != "random":
+        ck.label("b:" + case["b_kind"])
+    if case.get("b_kind") == "unit_pair":
+        x0c = []
+        for j, n in enumerate(N):
+            c = torch.zeros(1, n, 1, dtype=torch.float64)
+            c[0, (1 if (j == len(N) - 1 and n > 1) else 0), 0] = 1.0
+            x0c.append(c)
+        x0 = T.TT(x0c)
     if case.get("x0_is_rhs") and x0 is None:
         x0 = b
         ck.label("x0", "x0_is_rhs")
